@@ -428,7 +428,7 @@ func genConc(t *rapid.T) concCase {
 var chkConc = harness.Define("shared-client", genConc, runConc)
 
 func TestRandom(t *testing.T) {
-	chkConc.Rapid(t, harness.Pick(40, 1500))
+	chkConc.Rapid(t, harness.Pick(100, 1500))
 }
 
 // TestSerialCancelWhileReading: the first caller's context ends while the serial port is blocked in Read (its reply is withheld); the
